@@ -12,17 +12,30 @@ from .engine import State, Exit, Frame, UNBOUND
 _src_cache = {}
 
 
+_mod_ast = {}
+
+
 def func_ast(f):
-    """AST of the real function object (re-read from the source file of the imported module)."""
-    key = f
-    if key not in _src_cache:
-        src = textwrap.dedent(inspect.getsource(f))
-        tree = pyast.parse(src)
-        node = tree.body[0]
-        first = f.__code__.co_firstlineno
-        pyast.increment_lineno(node, first - node.lineno)
-        _src_cache[key] = node
-    return _src_cache[key]
+    """AST of the real function object, located by line number in the (re-read) source file of its module."""
+    if f in _src_cache:
+        return _src_cache[f]
+    path = inspect.getsourcefile(f)
+    if path not in _mod_ast:
+        with open(path) as fh:
+            tree = pyast.parse(fh.read(), path)
+        idx = {}
+        for n in pyast.walk(tree):
+            if isinstance(n, (pyast.FunctionDef, pyast.Lambda)):
+                idx.setdefault(n.lineno, n)
+                for d in getattr(n, 'decorator_list', []):
+                    idx.setdefault(d.lineno, n)
+        _mod_ast[path] = idx
+    first = f.__code__.co_firstlineno
+    node = _mod_ast[path].get(first)
+    if node is None or (isinstance(node, pyast.FunctionDef) and node.name != f.__name__):
+        raise EngineError('cannot locate source of %s' % f.__qualname__)
+    _src_cache[f] = node
+    return node
 
 
 def qualname(f):
@@ -169,7 +182,7 @@ class CallMixin(object):
         f = inspect.unwrap(f) if not hasattr(f, '__wrapped__') or not getattr(f, '_givc_keep', False) else f
         q = qualname(f)
         mode = 'inline' if inline else self.registry.mode_for(q, self.cur_contract)
-        if mode is None and f.__module__.startswith('contracts'):
+        if mode is None and (f.__module__.startswith('contracts') or f.__name__ == '__init__'):
             mode = 'inline'
         if mode is None and f.__module__ in ('operator',):
             return self.call_builtin(st, f, args, kwargs, line)
@@ -237,16 +250,10 @@ class CallMixin(object):
             if v.hint is not None and v.hint.kind == 'int' and not v.hint.opt:
                 return v
             s = Val.s(v.t)
-            # int(str): ValueError unless an optional sign followed by digits (ASCII subset; whitespace,
-            # underscores and non-ASCII digits are treated as ValueError -> over-approximates raising)
-            digits = z3.Plus(z3.Range('0', '9'))
-            ok = z3.InRe(s, z3.Concat(z3.Option(z3.Union(z3.Re('-'), z3.Re('+'))), digits))
+            iv, canonical = self.str_to_int(s)
             self.raise_exit(st, TypeError, Not(Or(Val.is_S(v.t), Val.is_I(v.t))), line)
-            self.raise_exit(st, ValueError, And(Val.is_S(v.t), Not(ok)), line)
-            self.trust('int(str) accepts only [+-]?[0-9]+ (other accepted spellings are treated as ValueError)')
-            neg = z3.PrefixOf(z3.StringVal('-'), s)
-            body = z3.If(Or(neg, z3.PrefixOf(z3.StringVal('+'), s)), z3.SubString(s, 1, z3.Length(s) - 1), s)
-            iv = z3.If(neg, -z3.StrToInt(body), z3.StrToInt(body))
+            self.raise_exit(st, ValueError, And(Val.is_S(v.t), Not(canonical)), line)
+            self.trust('int(str): defined on canonical decimal strings only (other accepted spellings such as "+5", " 5", "05" are treated as ValueError)')
             return V(mkI(z3.If(Val.is_I(v.t), Val.i(v.t), iv)), parse_spec('int'))
         if o is hasattr:
             return self.hasattr(st, args[0], self.const_str(args[1]))
